@@ -50,6 +50,34 @@ type c17Env struct {
 	calls      int
 	failedCall bool
 	failCount  int
+	held       []c17Held // slices returned by earlier reads that the caller still holds
+}
+
+// c17Held is a slice a read returned together with what it must (still) contain.
+type c17Held struct {
+	op   c17Op
+	got  []byte
+	want []byte
+}
+
+// checkHeld verifies that the bytes handed out by earlier reads were not changed by the cache
+// afterwards (a reader may hold its slice while other reads run), then scribbles on them (the
+// caller owns them: that must not reach the cache either) and forgets them.
+func (e *c17Env) checkHeld(after c17Op) (string, string) {
+	defer func() {
+		for _, h := range e.held {
+			for i := range h.got {
+				h.got[i] ^= 0xFF
+			}
+		}
+		e.held = nil
+	}()
+	for _, h := range e.held {
+		if !bytes.Equal(h.got, h.want) {
+			return "returned-bytes-changed-later", fmt.Sprintf("the slice returned by %s held %v; after the later operation %s it holds %v", h.op, h.want, after, h.got)
+		}
+	}
+	return "", ""
 }
 
 var errC17Remote = errors.New("c17: injected remote failure")
@@ -104,10 +132,12 @@ func (e *c17Env) apply(o c17Op) (class, detail string) {
 		if !bytes.Equal(got, want) {
 			return "wrong-bytes", fmt.Sprintf("%s returned %v, the remote holds %v (remote calls=%d failed=%v)", o, got, want, e.calls, e.failedCall)
 		}
-		// the caller owns the returned slice: scribbling on it must not reach the cache
-		for i := range got {
-			got[i] ^= 0xFF
+		// the caller keeps the slice over the next operation (checked and scribbled on by checkHeld)
+		if cl, dt := e.checkHeld(o); cl != "" {
+			return cl, dt
 		}
+		e.held = append(e.held, c17Held{o, got, append([]byte{}, want...)})
+		return "", ""
 	case "set":
 		v := append([]byte{}, c17File[o.Start:o.Start+o.Len]...)
 		if err := e.rc.SetRange(ctx, o.Start, o.Len, v); err != nil {
@@ -126,7 +156,7 @@ func (e *c17Env) apply(o c17Op) (class, detail string) {
 	case "failnext":
 		e.failNext = true
 	}
-	return "", ""
+	return e.checkHeld(o)
 }
 
 func (e *c17Env) key() string {
@@ -363,8 +393,14 @@ func (e *c17Env) applyConcurrent(o c17Op) (string, string) {
 		}
 		return "spurious-error", fmt.Sprintf("%s failed although no remote call failed meanwhile: %v", o, err)
 	}
-	if want := c17File[o.Start : o.Start+o.Len]; !bytes.Equal(got, want) {
+	want := c17File[o.Start : o.Start+o.Len]
+	if !bytes.Equal(got, want) {
 		return "wrong-bytes", fmt.Sprintf("%s returned %v, the remote holds %v", o, got, want)
+	}
+	// the reader uses its slice a little later (after a scheduling point): it must still be intact
+	vsched.Yield("use-result")
+	if !bytes.Equal(got, want) {
+		return "returned-bytes-changed-later", fmt.Sprintf("the slice returned by %s held %v; while the reader was still using it, it changed to %v", o, want, got)
 	}
 	for i := range got {
 		got[i] ^= 0xFF
